@@ -243,6 +243,46 @@ theorem C04_locktime_expired_state_corner (v e best : Nat) (hlt : best < e) :
 example : determineWitnessType 1 3 100 100 = .expiryTaproot ∧ determineWitnessType 0 3 100 99 = .multiSigWitness ∧
     determineWitnessType 77 4 100 5 = .expiryWitness := by decide
 
+/-- **RenewAccount always takes the cooperative path** (regenerated rule of `RenewAccount`): for every account
+version, state, expiry and best height its witness type is not an expiry type, `spendAccount` accepts it for a
+modification and sets lock time 0 – so a renewal needs the auctioneer's signature even after expiry; and for the
+three valid account versions the taproot flavour is chosen exactly for the taproot script versions. -/
+theorem C04_renew_cooperative (v best : Nat) :
+    wtypeIsExpiry (renewWitnessType v) = false ∧
+    spendLockTime (renewWitnessType v) false best = some 0 ∧
+    (renewWitnessType v = .muSig2Taproot ↔ 1 ≤ v) ∧ (renewWitnessType v = .multiSigWitness ↔ v = 0) := by
+  by_cases hv : 1 ≤ v
+  · have h0 : v ≠ 0 := by omega
+    simp [renewWitnessType, Gen.C04.renewWitnessTypeRule, lookupNat, Gen.C04.accountVersionValues, wtypeByName, hv,
+      h0, wtypeIsExpiry, Gen.C04.witnessTypeIsExpiryTable, spendLockTime, spendLockTimeWith,
+      Gen.C04.spendAccountLockTimeTable]
+  · have h0 : v = 0 := by omega
+    subst h0
+    simp [renewWitnessType, Gen.C04.renewWitnessTypeRule, lookupNat, Gen.C04.accountVersionValues, wtypeByName,
+      wtypeIsExpiry, Gen.C04.witnessTypeIsExpiryTable, spendLockTime, spendLockTimeWith,
+      Gen.C04.spendAccountLockTimeTable]
+
+/-- which rule each account-spending manager method uses (regenerated): Close / Deposit / Withdraw follow
+`determineWitnessType`, Renew its own cooperative rule; modifications (not CLOSE) on an expiry type are refused -/
+theorem C04_manager_witness_types (v st e best : Nat) :
+    managerWitnessType "CloseAccount" v st e best = some (determineWitnessType v st e best) ∧
+    managerWitnessType "DepositAccount" v st e best = some (determineWitnessType v st e best) ∧
+    managerWitnessType "WithdrawAccount" v st e best = some (determineWitnessType v st e best) ∧
+    managerWitnessType "RenewAccount" v st e best = some (renewWitnessType v) ∧
+    (wtypeIsExpiry (determineWitnessType v st e best) = true →
+      spendLockTime (determineWitnessType v st e best) false best = none) := by
+  refine ⟨by simp [managerWitnessType, lookupStr, Gen.C04.spendWitnessTypeSource],
+    by simp [managerWitnessType, lookupStr, Gen.C04.spendWitnessTypeSource],
+    by simp [managerWitnessType, lookupStr, Gen.C04.spendWitnessTypeSource],
+    by simp [managerWitnessType, lookupStr, Gen.C04.spendWitnessTypeSource, Gen.C04.renewWitnessTypeRule], ?_⟩
+  simp only [determineWitnessType_spec]
+  by_cases hv : v = 1 ∨ v = 2 <;> by_cases hc : st = Gen.C04.stateExpired ∨ e ≤ best <;>
+    simp [hv, hc, wtypeIsExpiry, Gen.C04.witnessTypeIsExpiryTable, wtypeByName, spendLockTime,
+      spendLockTimeWith, Gen.C04.spendAccountLockTimeTable]
+
+example : renewWitnessType 0 = .multiSigWitness ∧ renewWitnessType 2 = .muSig2Taproot ∧
+    managerWitnessType "WithdrawAccount" 1 3 100 100 = some .expiryTaproot := by decide
+
 /-! ## classification by the spend handler -/
 
 /-- **C04, classification.**  Every witness Pool builds is classified by `manager.HandleAccountSpend`'s switch
@@ -446,12 +486,12 @@ accepts only what the output key commits to – Pool's expiry leaf with a 33-byt
 (`hcommit`).  Then (no annex) the output is spendable exactly by the key path with such a signature, or by
 the script path `[σt, leaf, controlBlock]` with a valid trader signature and BIP-65 satisfied for the expiry
 (and `expiry ≠ 0`). -/
-theorem C04_taproot_spendable_iff (lt sq : Nat) (sigOK : Bytes → Bytes → Bool) (env : TapEnv) (e : Nat)
+theorem C04_taproot_core_iff (lt sq : Nat) (sigOK : Bytes → Bytes → Bool) (env : TapEnv) (e : Nat)
     (tkx program : Bytes) (hx : tkx.length = 32) (he : e < 2 ^ 32) (witness : List Bytes)
-    (hna : hasAnnex witness = false) (hsz : ∀ x ∈ witness, x.length ≤ MaxScriptElementSize)
+    (hsz : ∀ x ∈ witness, x.length ≤ MaxScriptElementSize)
     (hcommit : ∀ cb s, env.commitOK cb program s = true →
       s = taprootExpiryScript e tkx ∧ cb.length = 33 ∧ ∃ v rest, cb = v :: rest ∧ v.toNat / 2 * 2 = 0xc0) :
-    verifyTaproot (stdCtx true lt sq sigOK) env program witness = .ok () ↔
+    verifyTaprootCore (stdCtx true lt sq sigOK) env program witness = .ok () ↔
       (∃ σ, witness = [σ] ∧ schnorrSigLenOK σ = true ∧ env.keySpendOK program σ = true) ∨
       (∃ σt cb, witness = [σt, taprootExpiryScript e tkx, cb] ∧
         env.commitOK cb program (taprootExpiryScript e tkx) = true ∧
@@ -461,7 +501,7 @@ theorem C04_taproot_spendable_iff (lt sq : Nat) (sigOK : Bytes → Bytes → Boo
   generalize hr : witness.reverse = r
   have hw : witness = r.reverse := by rw [← hr]; simp
   subst hw
-  simp only [verifyTaproot, hna, if_false, Bool.false_eq_true]
+  simp only [verifyTaprootCore]
   match r, hr with
   | [], _ => simp
   | [sig], _ =>
@@ -471,8 +511,7 @@ theorem C04_taproot_spendable_iff (lt sq : Nat) (sigOK : Bytes → Bytes → Boo
       simp [hl, hk]
   | cb :: script :: revStack, _ =>
     have hrev : (cb :: script :: revStack).reverse.reverse = cb :: script :: revStack := by simp
-    have hlen : ¬ ((cb :: script :: revStack).reverse.length = 0) := by simp
-    simp only [hlen, if_false, hrev]
+    simp only [hrev]
     by_cases hc : env.commitOK cb program script = true
     · obtain ⟨hs, hcl, v, rest, hcb, hver⟩ := hcommit cb script hc
       subst hs
@@ -539,6 +578,51 @@ theorem C04_taproot_spendable_iff (lt sq : Nat) (sigOK : Bytes → Bytes → Boo
           injection h with h2 _
           subst h1; subst h2
           exact absurd hc' hc
+
+/-- **C04, taproot, annex included.**  `verifyWitnessProgram` snips a BIP-341 annex (last of ≥ 2 elements,
+first byte 0x50) off the witness before it decides between key path and script path; the characterisation
+therefore holds for *every* witness, about the witness without its annex.  (The annex is committed to by the
+sighash; that dependency is inside the ideal `sigOK` / `keySpendOK`.) -/
+theorem C04_taproot_spendable_iff_annex (lt sq : Nat) (sigOK : Bytes → Bytes → Bool) (env : TapEnv) (e : Nat)
+    (tkx program : Bytes) (hx : tkx.length = 32) (he : e < 2 ^ 32) (witness : List Bytes)
+    (hsz : ∀ x ∈ witness, x.length ≤ MaxScriptElementSize)
+    (hcommit : ∀ cb s, env.commitOK cb program s = true →
+      s = taprootExpiryScript e tkx ∧ cb.length = 33 ∧ ∃ v rest, cb = v :: rest ∧ v.toNat / 2 * 2 = 0xc0) :
+    verifyTaproot (stdCtx true lt sq sigOK) env program witness = .ok () ↔
+      (∃ σ, stripAnnex witness = [σ] ∧ schnorrSigLenOK σ = true ∧ env.keySpendOK program σ = true) ∨
+      (∃ σt cb, stripAnnex witness = [σt, taprootExpiryScript e tkx, cb] ∧
+        env.commitOK cb program (taprootExpiryScript e tkx) = true ∧
+        schnorrSigLenOK σt = true ∧ sigOK tkx σt = true ∧ CLTV lt sq e ∧ e ≠ 0) := by
+  have hsz' : ∀ x ∈ stripAnnex witness, x.length ≤ MaxScriptElementSize := by
+    intro x hx'
+    unfold stripAnnex at hx'
+    split at hx'
+    · exact hsz x (List.dropLast_subset _ hx')
+    · exact hsz x hx'
+  by_cases hl : witness.length = 0
+  · have hw : witness = [] := List.length_eq_zero_iff.mp hl
+    subst hw
+    simp [verifyTaproot, stripAnnex, hasAnnex]
+  · simp only [verifyTaproot, hl, if_false]
+    exact C04_taproot_core_iff lt sq sigOK env e tkx program hx he (stripAnnex witness) hsz' hcommit
+
+/-- the annex-free special case (all witnesses Pool builds) -/
+theorem C04_taproot_spendable_iff (lt sq : Nat) (sigOK : Bytes → Bytes → Bool) (env : TapEnv) (e : Nat)
+    (tkx program : Bytes) (hx : tkx.length = 32) (he : e < 2 ^ 32) (witness : List Bytes)
+    (hna : hasAnnex witness = false) (hsz : ∀ x ∈ witness, x.length ≤ MaxScriptElementSize)
+    (hcommit : ∀ cb s, env.commitOK cb program s = true →
+      s = taprootExpiryScript e tkx ∧ cb.length = 33 ∧ ∃ v rest, cb = v :: rest ∧ v.toNat / 2 * 2 = 0xc0) :
+    verifyTaproot (stdCtx true lt sq sigOK) env program witness = .ok () ↔
+      (∃ σ, witness = [σ] ∧ schnorrSigLenOK σ = true ∧ env.keySpendOK program σ = true) ∨
+      (∃ σt cb, witness = [σt, taprootExpiryScript e tkx, cb] ∧
+        env.commitOK cb program (taprootExpiryScript e tkx) = true ∧
+        schnorrSigLenOK σt = true ∧ sigOK tkx σt = true ∧ CLTV lt sq e ∧ e ≠ 0) := by
+  have := C04_taproot_spendable_iff_annex lt sq sigOK env e tkx program hx he witness hsz hcommit
+  simpa [stripAnnex, hna] using this
+
+/-- non-vacuity: an annexed script-path witness is accepted like the annex-free one -/
+example : stripAnnex [[7], [1, 2], [0xc0, 5], [0x50, 1]] = [[7], [1, 2], [0xc0, 5]] ∧
+    stripAnnex [[0x50, 1]] = [[0x50, 1]] := by decide
 
 theorem taprootExpiryScript_inj (e e' : Nat) (tkx tkx' : Bytes) (hx : tkx.length = 32) (hx' : tkx'.length = 32)
     (he : e < 2 ^ 32) (he' : e' < 2 ^ 32) (h : taprootExpiryScript e tkx = taprootExpiryScript e' tkx') :
